@@ -1080,12 +1080,28 @@ func (sc *Script) Render(logic string, getModel bool) string {
 			names[t] = nm
 		}
 	}
+	b.WriteString(hextAxioms(order, names))
 	for _, a := range sc.Asserts {
 		fmt.Fprintf(&b, "(assert %s)\n", printTerm(a, names))
 	}
 	b.WriteString("(check-sat)\n")
 	if getModel {
 		b.WriteString("(get-model)\n")
+	}
+	return b.String()
+}
+
+// hextAxioms defines every heap-extension array that survives in the output:
+// cells at or above its water mark are those of the old heap.
+func hextAxioms(order []*Term, names map[*Term]string) string {
+	var b strings.Builder
+	for _, t := range order {
+		if t.Op != "hext" {
+			continue
+		}
+		n := smtName(t.Str)
+		fmt.Fprintf(&b, "(assert (forall ((r$h Int)) (! (= (select %s r$h) (ite (>= r$h %s) (select %s r$h) (select %s r$h))) :pattern ((select %s r$h)))))\n",
+			n, printTerm(t.Args[2], names), printTerm(t.Args[0], names), printTerm(t.Args[1], names), n)
 	}
 	return b.String()
 }
